@@ -212,7 +212,7 @@ def generate(rng, tier):
                                                    {"eq": rng.randint(1, 8)}])
             else:
                 op = {"op": "request", "res": "R", "id": rid(),
-                      "hold": rng.choice([0.5, 1, 2, 3])}
+                      "hold": rng.choice([0, 0.5, 1, 2, 3])}     # 0: zero-length critical section
                 if kind != "resource":
                     op["priority"] = rng.randint(0, 3)
                 if kind == "preemptive":
